@@ -1,13 +1,49 @@
 import Ndt.Driver.Proto
 import Ndt.Model.Dea3
+import Ndt.Model.Richardson
 /-! The line-protocol driver: one operation per input line, one output line per input line. -/
 namespace Ndt.Driver
 open Ndt.Proto
 
 def floatConsts (eps tiny : Float) : Consts Float := ⟨eps, tiny, 1.0e-4, 10.0⟩
 
+/-- split a word list at `|` separators -/
+def splitBar (w : List String) : List (List String) :=
+  let rec go : List String → List String → List (List String)
+    | [], cur => [cur.reverse]
+    | "|" :: rest, cur => cur.reverse :: go rest []
+    | x :: rest, cur => go rest (x :: cur)
+  go w []
+
+/-- complex rationals travel as two words -/
+def cxs : List String → List (Cx Rat)
+  | a :: b :: rest => ⟨rq a, rq b⟩ :: cxs rest
+  | _ => []
+def cxStr (z : Cx Rat) : String := s!"{ratStr z.re} {ratStr z.im}"
+
 def handle (w : List String) : String :=
   match w with
+  -- richrule ρ step order numTerms len  (Rat): Richardson.rule(len)
+  | ["richrule", rho, st, ord, nt, len] =>
+    joinSp ((richRule (rq rho) st.toNat! ord.toNat! nt.toNat! len.toNat!).map ratStr)
+  | ["richrulec", rre, rim, st, ord, nt, len] =>
+    joinSp ((richRule (⟨rq rre, rq rim⟩ : Cx Rat) st.toNat! ord.toNat! nt.toNat! len.toNat!).map cxStr)
+  -- richcall ρ step order numTerms s0 s1 …  (Rat, one column)
+  | "richcall" :: rho :: st :: ord :: nt :: seq =>
+    joinSp ((richCall (rq rho) st.toNat! ord.toNat! nt.toNat! (rats seq)).map ratStr)
+  | "richcallc" :: rre :: rim :: st :: ord :: nt :: seq =>
+    joinSp ((richCall (⟨rq rre, rq rim⟩ : Cx Rat) st.toNat! ord.toNat! nt.toNat! (cxs seq)).map cxStr)
+  -- richfact eps rule… : fact = max(12.7062047361747*sqrt(sum |rule|^2), eps*10)
+  | "richfact" :: eps :: rule =>
+    toHex (richFact (12.7062047361747 : Float) (fb eps * 10.0) (Float.sqrt (sumSq (floats rule))))
+  -- richerr eps fact | new… | old… | steps…   (Float; the branch is chosen as _estimate_error does)
+  | "richerr" :: eps :: fact :: rest =>
+    match splitBar rest with
+    | [_, new, old, steps] =>
+      let new := floats new; let old := floats old; let steps := floats steps
+      if old.length < 2 then joinSp ((richErrShort (fb eps) (fb fact) new steps).map toHex)
+      else joinSp ((richErrMain (fb eps) 10.0 (fb fact) new old).map toHex)
+    | _ => "bad-op"
   -- dea3 <eps> <tiny> e0 e1 e2  (Float, bit patterns)
   | ["dea3", eps, tiny, a, b, c] =>
     let (r, e) := dea3 (floatConsts (fb eps) (fb tiny)) (fb a) (fb b) (fb c)
